@@ -53,6 +53,7 @@ def isolation(op, version):
         uid = [None, "1", "3"][uid_sel]
         user = "alice" if user_is_owner else "carol"
         outs = []
+        frames_ok = True
         for dirty in (True, False):
             objs = _store()
             e, s = mk_engine(objs, identity=(None, None), version=(1, 2), crypto=P.RecordingCrypto())
@@ -67,8 +68,86 @@ def isolation(op, version):
             with NoTracing():
                 payload = P.mk(op, uid, version=version)
                 req = mk_request([(getattr(OP, op), None, payload)], version=version)
+            with NoTracing():
+                frame0 = stubs.engine_frame(e)
             resp, max_size, pv = e.process_request(req, [user, None])
             outs.append((_encode(resp, version), max_size, str(pv), [snapshot(x) for x in s.objs], len(s.objs)))
+            # no request may change anything of the engine outside the per-request transient fields
+            if stubs.engine_frame(e) != frame0:
+                frames_ok = False
+        reach()
+        return outs[0] == outs[1] and frames_ok
+    return h
+
+
+NO_UID = ("DISCOVER_VERSIONS", "QUERY", "CREATE", "LOCATE")
+FIRSTS = ["DISCOVER_VERSIONS", "QUERY", "CREATE", "LOCATE", "GET", "ACTIVATE", "ENCRYPT", "DESTROY"]
+
+
+def history2(first, probe, v1, v2):
+    """Two requests on one engine versus the second request on a fresh engine over the store the
+    first request left.  The first request carries symbolic parameters where the operation has any
+    (the DiscoverVersions client list, identifier, requester)."""
+    v1, v2 = tuple(v1), tuple(v2)
+
+    def h(a0: int, b0: int, a1: int, b1: int, nv: int, uid_sel: int, first_is_owner: bool,
+          probe_uid_sel: int, probe_is_owner: bool) -> bool:
+        """
+        post: _
+        """
+        if not (0 <= nv <= 2 and 0 <= uid_sel <= 2 and 0 <= probe_uid_sel <= 2):
+            return True
+        for x in (a0, a1):
+            if not (0 <= x <= 2):
+                return True
+        for x in (b0, b1):
+            if not (0 <= x <= 4):
+                return True
+        if first in NO_UID and (uid_sel or not first_is_owner):
+            return True
+        if probe in NO_UID and probe_uid_sel:
+            return True
+        if nv < 2 and (a1 or b1):
+            return True
+        if nv < 1 and (a0 or b0):
+            return True
+        if first != "DISCOVER_VERSIONS" and (nv or a0 or b0):
+            return True
+        uid1 = [None, "1", "3"][uid_sel]
+        uid2 = [None, "1", "3"][probe_uid_sel]
+        user1 = "alice" if first_is_owner else "carol"
+        user2 = "alice" if probe_is_owner else "carol"
+        outs = []
+        for same_engine in (True, False):
+            objs = _store()
+            e, s = mk_engine(objs, identity=(None, None), version=(1, 2), crypto=P.RecordingCrypto())
+            opts = {}
+            if first == "DISCOVER_VERSIONS":
+                vs = []
+                if nv >= 1:
+                    vs.append(contents.ProtocolVersion(a0, b0))
+                if nv >= 2:
+                    vs.append(contents.ProtocolVersion(a1, b1))
+                opts["versions"] = vs
+            with NoTracing():
+                p1 = P.mk(first, uid1, version=v1, **opts)
+                r1 = mk_request([(getattr(OP, first), None, p1)], version=v1)
+                p2 = P.mk(probe, uid2, version=v2)
+                r2 = mk_request([(getattr(OP, probe), None, p2)], version=v2)
+            try:
+                e.process_request(r1, [user1, None])
+            except Exception:
+                pass                           # a refused first request is still a history
+            if not same_engine:
+                e2, s2 = mk_engine([], identity=(None, None), version=(1, 2), crypto=P.RecordingCrypto())
+                e2._data_store_session_factory = s
+                e2._data_session = s
+                e = e2
+            try:
+                resp, max_size, pv = e.process_request(r2, [user2, None])
+                outs.append((_encode(resp, v2), max_size, str(pv), [snapshot(x) for x in s.objs], len(s.objs)))
+            except Exception as ex:
+                outs.append((type(ex).__name__, str(ex), [snapshot(x) for x in s.objs], len(s.objs)))
         reach()
         return outs[0] == outs[1]
     return h
@@ -87,4 +166,22 @@ def conditions(tier):
                                    "not; dirty pre-state: placeholder None or any string len<=2, any of the 6 protocol "
                                    "versions + its attribute policy, identity string len<=1 with a group, async flag"
                                    % (op, v[0], v[1]), timeout=600, part="isolation"))
+    pairs = [("DISCOVER_VERSIONS", "QUERY"), ("DISCOVER_VERSIONS", "DISCOVER_VERSIONS"), ("CREATE", "GET"),
+             ("QUERY", "GET_ATTRIBUTE_LIST"), ("LOCATE", "GET"), ("ACTIVATE", "GET_ATTRIBUTES"), ("ENCRYPT", "DECRYPT"),
+             ("DESTROY", "GET")]
+    if thorough:
+        pairs = [(f, p) for f in FIRSTS for p in ("GET", "QUERY", "DISCOVER_VERSIONS", "GET_ATTRIBUTE_LIST", "LOCATE",
+                                                     "ACTIVATE", "DESTROY")]
+    vpairs = [((1, 2), (1, 2)), ((1, 4), (1, 1)), ((2, 0), (1, 3))] if not thorough else \
+        [((1, 2), (1, 2)), ((1, 4), (1, 1)), ((2, 0), (1, 3)), ((1, 1), (2, 0)), ((1, 0), (1, 4))]
+    for f, p in pairs:
+        for v1, v2 in vpairs:
+            if tuple(v1) < P.MIN_VERSION.get(f, (1, 0)) or tuple(v2) < P.MIN_VERSION.get(p, (1, 0)):
+                continue
+            out.append(Cond("history2-%s-%d.%d-then-%s-%d.%d" % (f, v1[0], v1[1], p, v2[0], v2[1]), "history2",
+                            dict(first=f, probe=p, v1=list(v1), v2=list(v2)),
+                            bounds="request 1: %s under %d.%d (identifier absent/existing/unknown, requester owner or "
+                                   "not; DiscoverVersions client list of 0-2 versions with major 0-2, minor 0-4); request "
+                                   "2: %s under %d.%d likewise; same engine vs fresh engine over the resulting store"
+                                   % (f, v1[0], v1[1], p, v2[0], v2[1]), timeout=900, part="history2"))
     return out
